@@ -450,6 +450,17 @@ var classGens = []classGen{
 			}
 			g.emitH(cl, v, pk, msg, setS(sig, n, s2), ctx, ref.MustReject)
 		}
+		// the same (R = identity, S = 0) under the identity key for a run of
+		// short messages: the challenge scalar differs per message, the
+		// field elements the verifier computes with are 0, 1 and p-1 - the
+		// structured values on which a dropped carry fold shows
+		if g.j%4 == 0 {
+			for mi := 0; mi < 24; mi++ {
+				m := []byte{byte(g.j), byte(mi)}
+				sig := g.c.SignRaw(zero, pk, dom, ref.PH(v, m), big.NewInt(0), nil)
+				g.emitH("identity-key-boundary-S", v, pk, m, sig, ctx, ref.MustAccept)
+			}
+		}
 	}},
 	{"small-order-A", "", func(g *gen) {
 		t := tablesOf(g.c)
